@@ -220,3 +220,67 @@ func VerifH_U32BitTip() {
 	}
 	symx.Reach("end")
 }
+
+// C09/H4c: blocks built from serialized data (the empty payload included) are values of their own: two
+// blocks unmarshalled from the same bytes, of either block type, denote exactly the set the bytes denote
+// at their own start, also after one of them accepted a further integer of its block.
+func VerifH_BlocksFromData() {
+	symx.ForkIndex(true)
+	src := NewBit1024()
+	members := symx.Concrete(symx.Int("members"), 0, 1)
+	off := verifOff("off")
+	if members == 1 {
+		src.SetI32(int32(off))
+	}
+	var data []byte
+	switch symx.Concrete(symx.Int("payload"), 0, 1) {
+	case 0:
+		data = src.Marshal()
+	case 1:
+		symx.Assume(members == 0)
+		data = nil // an empty payload may also be no bytes at all
+	}
+	kept := append([]byte(nil), data...)
+	s1, s2 := uint32(symx.Concrete(symx.Int("start1"), 0, 2)), uint32(symx.Concrete(symx.Int("start2"), 0, 2))
+	add := verifOff("add")
+	big := symx.Bool("firstIsBigU32")
+	var xs, ys []int64
+	if big {
+		x, err := NewBigU32FromData(s1, data)
+		symx.Assert(err == nil, "block from marshalled data")
+		symx.Assert(x.SetI64(int64(s1)*C1K+add) == nil, "integer of the same block accepted")
+		xs = x.GetNAsI64(4)
+	} else {
+		x, err := NewU32BitTipFromData(s1, data)
+		symx.Assert(err == nil, "block from marshalled data")
+		symx.Assert(x.SetU32(s1*C1K+uint32(add)) == nil, "integer of the same block accepted")
+		for _, v := range x.GetNAsU32(4) {
+			xs = append(xs, int64(v))
+		}
+	}
+	if symx.Bool("secondIsBigU32") {
+		y, err := NewBigU32FromData(s2, data)
+		symx.Assert(err == nil, "second block from the same data")
+		ys = y.GetNAsI64(4)
+	} else {
+		y, err := NewU32BitTipFromData(s2, data)
+		symx.Assert(err == nil, "second block from the same data")
+		for _, v := range y.GetNAsU32(4) {
+			ys = append(ys, int64(v))
+		}
+	}
+	symx.Assert(len(ys) == members, "a block built from the bytes denotes exactly the set the bytes denote")
+	if members == 1 && len(ys) == 1 {
+		symx.Assert(ys[0] == int64(s2)*C1K+off, "at its own start")
+	}
+	wantX := members
+	if members == 0 || add != off {
+		wantX++
+	}
+	symx.Assert(len(xs) == wantX, "the first block holds the data's members and the integer it accepted")
+	symx.Assert(len(data) == len(kept), "the input bytes are not changed")
+	for i := range kept {
+		symx.Assert(data[i] == kept[i], "the input bytes are not changed")
+	}
+	symx.Reach("end")
+}
